@@ -1,6 +1,7 @@
 (* C05 — &del formulas are evaluated with linear dynamic logic on finite traces.  Property theorems only. *)
 From Coq Require Import List Bool Arith ZArith Lia.
 Require Import GenPrelude TheoryPrelude FromTheory DynPrelude FromDynamic LDL Leaf_theory DynReduce.
+Require BodyTheoryFull.
 (* the executable diamond (continuation style, one case per path constructor, as the translate_X methods of DiamondFormula) is the
    relational "some run of the path from k ends in a state satisfying c", for ALL paths *)
 Theorem C05_diamond : forall (A : Type) (h : nat) (T : trace A) (p : path A) (c : nat -> bool) (k : nat), k <= h ->
@@ -42,6 +43,34 @@ Example C05_example_wf : wf nat (FDia nat (Star nat (Seq nat (Test nat (TAtom na
   bsat nat 2 (fun k a => match a with 0 => k <? 2 | _ => k =? 2 end) (FDia nat (Star nat (Seq nat (Test nat (TAtom nat 0)) (Skip nat))) (FAtom nat 1)) 0 = true /\
   bsat nat 2 (fun k a => match a with 0 => k <? 1 | _ => k =? 2 end) (FDia nat (Star nat (Seq nat (Test nat (TAtom nat 0)) (Skip nat))) (FAtom nat 1)) 0 = false.
 Proof. repeat split; [eexists; reflexivity]. Qed.
+(* ---- the OPERATIONAL model with the dynamic layer inside (Model/BodyTheoryFull.v: DiamondFormula / BoxFormula allocate a literal and tie it to
+   the literal of what translate_<PathClass> builds; cache, placeholders and pending list as for &tel; compared with Theory.translate event by
+   event on every run) ---- *)
+Module F := BodyTheoryFull.
+Require Import Leaf_dynamic.
+(* the regenerated construction tables build, for every path class, the formulas the model reasons about *)
+Theorem C05_constructions_follow_the_source : forall (A : Type) (p : LDL.path A) (g : F.bf A),
+  F.reduce A (F.Dia A p g) = Some (F.dia_built A p g) /\ F.reduce A (F.Box A p g) = Some (F.box_built A p g).
+Proof. exact reduce_eqs_hold. Qed.
+(* at every stable point of the incremental run, in every assignment that violates no emitted constraint, the literal cached for a diamond
+   (box) formula at state k is true exactly if some (every) run of the path from k ends in a state where the literal's argument formula holds -
+   provided the formulas are in the documented normal form (F.Wf: iteration only over step-consuming paths) *)
+Theorem C05_cached_literals_have_the_LDLf_value : forall (A : Type) (A_eq_dec : forall a b : A, {a = b} + {a <> b}) (h : nat) (s : F.st A),
+  F.Inv A A_eq_dec h nil s -> F.Wf A A_eq_dec s -> forall (T : F.trace A) (v : nat -> bool), F.ok_cls A T v s -> F.ok_ext A A_eq_dec v s ->
+  forall (p : LDL.path A) (g : F.bf A) (k : nat) (l : F.lit A),
+    (F.cached A A_eq_dec s (F.Dia A p g) k l -> F.ev A T v l = LDL.ds A h T p (F.lsat A h T g) k) /\
+    (F.cached A A_eq_dec s (F.Box A p g) k l -> F.ev A T v l = negb (LDL.ds A h T p (fun j => negb (F.lsat A h T g j)) k)).
+Proof.
+  intros A D h s I W T v Oc Oe p g k l. split; intros C; exact (F.value_full A D (reduce_eqs_hold A) h s I W T v Oc Oe _ k l C).
+Qed.
+(* the normal form is kept by Theory.translate: what enters the cache is the translated formula, its sub-formulas and what the tables build *)
+Theorem C05_normal_form_is_kept : forall (A : Type) (A_eq_dec : forall a b : A, {a = b} + {a <> b}) (fuel h : nat) (s : F.st A) (roots : list (nat * F.bf A)) (s' : F.st A),
+  F.Wf A A_eq_dec s -> (forall p, In p roots -> F.wfb A (snd p) = true) -> F.theory_translate A A_eq_dec fuel h roots s = Some s' -> F.Wf A A_eq_dec s'.
+Proof. exact (fun A D => F.theory_translate_wf A D (reduce_eqs_hold A)). Qed.
+(* every construction is LDLf-equivalent to the modality it stands for (in the operational model's formula language) *)
+Theorem C05_built_formulas_are_equivalent : forall (A : Type) (h : nat) (T : F.trace A) (p : LDL.path A) (g : F.bf A) (k : nat), k <= h ->
+  F.lsat A h T (F.dia_built A p g) k = F.lsat A h T (F.Dia A p g) k /\ F.lsat A h T (F.box_built A p g) k = F.lsat A h T (F.Box A p g) k.
+Proof. exact F.built_valid. Qed.
 Print Assumptions C05_diamond.
 Print Assumptions C05_dia_formula.
 Print Assumptions C05_box_formula.
@@ -50,3 +79,7 @@ Print Assumptions C05_constructions_valid.
 Print Assumptions C05_translation_determines_value.
 Print Assumptions C05_semantics_is_a_solution.
 Print Assumptions C05_objects_match_spec.
+Print Assumptions C05_constructions_follow_the_source.
+Print Assumptions C05_cached_literals_have_the_LDLf_value.
+Print Assumptions C05_normal_form_is_kept.
+Print Assumptions C05_built_formulas_are_equivalent.
